@@ -1227,7 +1227,16 @@ fn fuzz_main(args: &[String]) {
     let mut nsteps = 0u64;
     let mut kinds: BTreeMap<u64, u64> = BTreeMap::new();
     let mut opmix: BTreeMap<String, (u64, u64)> = BTreeMap::new();
+    let mut nhang = 0u64;
+    let mut done = 0u64;
     for k in 0..ncases {
+        // a hung call leaves its thread behind (possibly spinning): after a few of them the remaining cases would only
+        // measure the scheduler, and the failures are already recorded
+        if nhang >= 6 {
+            println!("STAT stopped_after_hangs={} at_case={}", nhang, k);
+            break;
+        }
+        done += 1;
         let cseed = seed.wrapping_mul(0x9E3779B97F4A7C15).wrapping_add(k * 104729 + 17);
         let (kind, base) = if !base_scripts.is_empty() && k % 3 == 0 {
             let s = &base_scripts[((k / 3) as usize) % base_scripts.len()];
@@ -1244,6 +1253,9 @@ fn fuzz_main(args: &[String]) {
             e.1 += v.1;
         }
         for f in finds {
+            if f.kind == "hang" {
+                nhang += 1;
+            }
             let key = (f.kind.to_string(), f.site.clone(), f.op.clone());
             let c = seen.entry(key).or_insert(0);
             *c += 1;
@@ -1262,7 +1274,7 @@ fn fuzz_main(args: &[String]) {
     for (k, v) in &opmix {
         println!("STAT op={} ok={} err={}", k, v.0, v.1);
     }
-    println!("STAT cases={} steps={}", ncases, nsteps);
+    println!("STAT cases={} steps={}", done, nsteps);
     std::process::exit(0);
 }
 
